@@ -5,7 +5,7 @@ const LRU = require('lru-cache')
 
 const { SourceMap } = require('./node_source_map')
 const SOURCE_MAP_LINE_START = '//# sourceMappingURL='
-const SOURCE_MAP_INLINE_LINE_START = '//# sourceMappingURL=data:application/json;base64,'
+const SOURCE_MAP_INLINE_REGEX = /^\/\/# sourceMappingURL=data:application\/json;(?:charset=[^;,]+;)?base64,(.*)$/
 
 const rewrittenSourceMapsCache = new Map()
 const originalSourceMapsCache = new LRU({ max: 1000 })
@@ -15,10 +15,11 @@ function generateSourceMapFromFileContent (fileContent, filePath) {
   const lastLine = fileLines[fileLines.length - 1]
   let rawSourceMap
 
-  // all rewritten source files have the sourceMap inlined
-  if (lastLine.indexOf(SOURCE_MAP_INLINE_LINE_START) === 0) {
-    const sourceMapInBase64 = lastLine.substring(SOURCE_MAP_INLINE_LINE_START.length)
-    rawSourceMap = Buffer.from(sourceMapInBase64, 'base64').toString('utf8')
+  // all rewritten source files have the sourceMap inlined; other tools also write
+  // data:application/json;charset=utf-8;base64,...
+  const inlined = SOURCE_MAP_INLINE_REGEX.exec(lastLine)
+  if (inlined) {
+    rawSourceMap = Buffer.from(inlined[1], 'base64').toString('utf8')
 
     // unmodified source files could originally point to a sourceMap file but it could not exist
   } else if (lastLine.indexOf(SOURCE_MAP_LINE_START) === 0) {
